@@ -106,6 +106,28 @@ def make(depth, max_children, max_top, raws):
     return factory
 
 
+def make_wide(max_n, types):
+    """One node with n leaf children (n up to max_n, so that the number of children passes the number of bookkeeping keys
+    a record can carry), each child's type forked."""
+    def factory(excluded=frozenset()):
+        def harness(c):
+            n = int(fresh_int(c, "n_children", 1, max_n))
+            spec = ("node", "file", [("node", "x", [("leaf", choose(c, f"k{i}_type", types), "a") for i in range(n)])])
+            text = "".join(spec_leaves(spec))
+            tree = build(spec, TemplatedFile.from_string(text), [0])
+            with_pos = bool(fresh_bool(c, "include_position"))
+            rec = tree.as_record(show_raw=True, include_position=with_pos)  # REAL
+            leaves = record_leaves(rec)
+            ok = leaves == spec_leaves(spec) and record_shape(rec) == [shape(spec)]
+            if with_pos and n >= 7:
+                c.witness("more_children_than_position_keys")
+            if len({ch[1] for ch in spec[2][0][2]}) < n:
+                c.witness("duplicate_types")
+            return ok
+        return harness
+    return factory
+
+
 def _walk_values(rec):
     if isinstance(rec, list):
         yield rec
@@ -129,4 +151,10 @@ def units(tier, seed):
         stubs=["none: real segment classes; shapes, type names and texts are solver-forked choices"],
         outside=["CLI parse command formatting (human/yaml/json writers)"],
         witnesses_required=["duplicate_keys_kept_as_list", "with_positions"], sharded=True, timeout_s=600 if tier == "quick" else 1800)
-        for d, m, t, r in cfg]
+        for d, m, t, r in cfg] + [Unit(
+        name=f"c28.as_record_wide[<= {wn} children, {len(wt)} type names]",
+        functions=["sqlfluff.core.parser.segments.base.BaseSegment.structural_simplify", "BaseSegment.to_tuple", "BaseSegment.as_record"],
+        bounds={"children of one node": f"1..{wn}", "type names": wt, "positions": "with/without"},
+        make=make_wide(wn, wt), replay="concrete", stubs=["none: real segment classes"],
+        witnesses_required=["more_children_than_position_keys", "duplicate_types"], sharded=True, timeout_s=600 if tier == "quick" else 1800)
+        for wn, wt in ([(10, ["x", "y"])] if tier == "quick" else [(10, ["x", "y", "z"])])]
